@@ -184,7 +184,41 @@ func (e *errEval) evalStatus(s errShape) (int64, bool) {
 	cur := int64(-1)
 	curKind := "const"
 	b := fn.Blocks[0]
+	var prev *ssa.BasicBlock
+	env := map[*ssa.Phi]ssa.Value{} // the joins met on the way, by the edge taken (the code kept in a local until the end)
+	resolve := func(v ssa.Value) ssa.Value {
+		for i := 0; i < 8; i++ {
+			v = stripConv(v)
+			ph, ok := v.(*ssa.Phi)
+			if !ok {
+				return v
+			}
+			nv, ok := env[ph]
+			if !ok {
+				return v
+			}
+			v = nv
+		}
+		return v
+	}
 	for steps := 0; steps < 128; steps++ {
+		if prev != nil {
+			for k, pb := range b.Preds {
+				if pb != prev {
+					continue
+				}
+				for _, in := range b.Instrs {
+					ph, ok := in.(*ssa.Phi)
+					if !ok {
+						break
+					}
+					if k < len(ph.Edges) {
+						env[ph] = resolve(ph.Edges[k])
+					}
+				}
+			}
+		}
+		prev = b
 		for _, in := range b.Instrs {
 			st, ok := in.(*ssa.Store)
 			if !ok {
@@ -197,10 +231,12 @@ func (e *errEval) evalStatus(s errShape) (int64, bool) {
 			if _, n, _, _ := fieldOf(fa); n != "Code" {
 				continue
 			}
-			if k, ok := constInt(st.Val); ok {
+			val := resolve(st.Val)
+			if k, ok := constInt(val); ok {
 				cur, curKind = k, "const"
 				continue
 			}
+			st = &ssa.Store{Addr: st.Addr, Val: val}
 			curKind = "?"
 			for _, l := range leavesOf(st.Val) {
 				if l.Kind == leafCallResult && calleeName(l.Call) == "translateSyscallError" {
